@@ -64,10 +64,13 @@ def build_c(run):
             if tu.enum_by_name.get(nm) != val:
                 raise K.Unsupported("enum rx_state: %s is %r in this build, the case table of contracts/c/sercomm.py assumes %d" % (nm, tu.enum_by_name.get(nm), val))
         ex = {"build": mode, "rx_size": rx}
+        n0 = len(run.obls)
         K.verify(run, ID, tu, CT.SendMsg, tag_extra=ex)
         K.verify(run, ID, tu, CT.DrvPull, tag_extra=ex)
         K.verify(run, ID, tu, CT.DrvRxChar(rx), tag_extra=ex)
         K.verify(run, ID, tu, CT.RegisterRxCb, tag_extra=ex)
+        for o in run.obls[n0:]:
+            o.case = "%s,%s build" % (o.case, mode) if o.case else "%s build" % mode       # the two builds have the same paths: keep their names apart
         coupling(run, mode, rx)
         resync(run, mode, rx)
     run.assume("handlers registered with sercomm_register_rx_cb take ownership of the message and do not call back into sercomm "
@@ -132,7 +135,7 @@ def i_rx(tx, rx, O, RX, js):
 
 def i_busy(tx, rx, O, RX, js):
     L = tx.t - tx.d
-    return CT.txi(tx, O, js) + [L >= 2, L - 2 < RX, z3.Select(O, tx.d + 1) == W.CTRL_UI, 0 <= z3.Select(O, tx.d), z3.Select(O, tx.d) < NDLCI,
+    return CT.txi(tx, O, js) + [L >= 2, L - 2 <= RX, z3.Select(O, tx.d + 1) == W.CTRL_UI, 0 <= z3.Select(O, tx.d), z3.Select(O, tx.d) < NDLCI,
                                 i_rx(tx, rx, O, RX, js)]
 
 
@@ -155,14 +158,14 @@ def coupling(run, mode, RX):
 
     # start of a frame: transmitter idle, receiver in sync, message (O, md, mt) dequeued
     md, mt, qi = z3.Int("m.d"), z3.Int("m.t"), z3.Int("m.queue")
-    hy = [tx.idle, z3.Not(tx.esc), CT.sync_idle(rx, RX), CT.queue_entry(qi, O, md, mt), mt - md - 2 < RX]
+    hy = [tx.idle, z3.Not(tx.esc), CT.sync_idle(rx, RX), CT.queue_entry(qi, O, md, mt), mt - md - 2 <= RX]
     ch, tx1 = CT.pull_start(tx, O, md, mt)
-    ret, rx1, dv = CT.rx_abs(rx, ch, RX, "s")
+    rx1, dv = CT.rx_abs(rx, ch, RX, "s")
     inp = _inputs(tx1, O, RX)
     cover("coupling.start.reachable", hy)
     for n_, g in enumerate(i_busy(tx1, rx1, O, RX, [j])):
         ob("coupling.start.establishes_invariant.%d" % n_, hy, g, inp)
-    ob("coupling.start.nothing_delivered", hy, z3.And(z3.Not(dv["flag"]), ret == 1), inp)
+    ob("coupling.start.nothing_delivered", hy, z3.And(z3.Not(dv["flag"]), z3.Not(dv["discard"])), inp)
 
     # a step inside the frame
     n = tx.n
@@ -172,32 +175,34 @@ def coupling(run, mode, RX):
     hy = i_busy(tx, rx, O, RX, inst + [j - 0]) + [z3.Not(end), oct_(z3.Select(O, n)), oct_(z3.Select(tx.buf, n)), oct_(z3.Select(O, tx.d)),
                                                    oct_(z3.Select(O, tx.d + 2 + j))]
     ch, tx1 = CT.pull_busy(tx)
-    ret, rx1, dv = CT.rx_abs(rx, ch, RX, "p")
+    rx1, dv = CT.rx_abs(rx, ch, RX, "p")
     inp = _inputs(tx, O, RX)
     cover("coupling.preserved.reachable", hy)
     for n_, g in enumerate(CT.txi(tx1, O, [j])):
         ob("coupling.preserved.transmitter_invariant.%d" % n_, hy, g, inp)
     ob("coupling.preserved.receiver_tracks_transmitter", hy, i_rx(tx1, rx1, O, RX, [j]), inp)
-    ob("coupling.preserved.no_overflow_nothing_delivered", hy, z3.And(ret == 1, z3.Not(dv["flag"])), inp)
+    ob("coupling.preserved.no_overflow_nothing_delivered", hy, z3.And(z3.Not(dv["discard"]), z3.Not(dv["flag"])), inp)
 
     # the closing flag: delivery
     hy = i_busy(tx, rx, O, RX, [j, n]) + [end, oct_(z3.Select(O, tx.d))]
     ch, tx1 = CT.pull_busy(tx)
-    ret, rx1, dv = CT.rx_abs(rx, ch, RX, "e")
+    rx1, dv = CT.rx_abs(rx, ch, RX, "e")
     L = tx.t - tx.d
     cover("coupling.delivery.reachable", hy)
     ob("coupling.delivery.closing_flag", hy, z3.And(ch == W.FLAG, tx1.idle, z3.Not(tx1.esc)), inp)
-    ob("coupling.delivery.handed_to_handler_once", hy, z3.And(dv["flag"], ret == 1), inp)
-    ob("coupling.delivery.dlci_identical", hy, dv["dlci"] == z3.Select(O, tx.d), inp)
-    ob("coupling.delivery.length_identical", hy, dv["t"] - dv["d"] == L - 2, inp)
-    ob("coupling.delivery.payload_identical", hy + [0 <= j, j < L - 2], z3.Select(dv["buf"], dv["d"] + j) == z3.Select(O, tx.d + 2 + j), inp)
+    # payloads shorter than the buffer MUST be delivered; a payload of exactly RX octets (boundary left open by the statement) MAY be:
+    # whatever is delivered is identical
+    ob("coupling.delivery.handed_to_handler_once", hy + [L - 2 < RX], z3.And(dv["flag"], z3.Not(dv["discard"])), inp)
+    ob("coupling.delivery.dlci_identical", hy + [dv["flag"]], dv["dlci"] == z3.Select(O, tx.d), inp)
+    ob("coupling.delivery.length_identical", hy + [dv["flag"]], dv["t"] - dv["d"] == L - 2, inp)
+    ob("coupling.delivery.payload_identical", hy + [dv["flag"], 0 <= j, j < L - 2], z3.Select(dv["buf"], dv["d"] + j) == z3.Select(O, tx.d + 2 + j), inp)
     ob("coupling.delivery.back_in_sync", hy, CT.sync_idle(rx1, RX), inp)
 
     # noise between frames
     c = z3.Int("noise")
     hy = [CT.sync_idle(rx, RX), oct_(c), c != W.FLAG]
-    ret, rx1, dv = CT.rx_abs(rx, c, RX, "n")
-    ob("coupling.noise_between_frames_ignored", hy, z3.And(CT.sync_idle(rx1, RX), z3.Not(dv["flag"]), ret == 1), {"noise_octet": c, "rx_size": z3.IntVal(RX)})
+    rx1, dv = CT.rx_abs(rx, c, RX, "n")
+    ob("coupling.noise_between_frames_ignored", hy, z3.And(CT.sync_idle(rx1, RX), z3.Not(dv["flag"]), z3.Not(dv["discard"])), {"noise_octet": c, "rx_size": z3.IntVal(RX)})
 
 
 def txrep(tx):
@@ -237,23 +242,23 @@ def resync(run, mode, RX):
     oct_ = CT.octet
     c = z3.Int("octet")
 
-    # overflow reset, from ANY receiver state
-    hy = [CT.rx_geometry(rx, RX), rx.types(), oct_(c), rx.has, rx.rdl - rx.rt == 0]
-    ret, rx1, dv = CT.rx_abs(rx, c, RX, "o")
-    ob("resync.overflow_resets_to_wait_start", hy, z3.And(ret == 0, CT.sync_idle(rx1, RX), z3.Not(dv["flag"])), {"rx_size": z3.IntVal(RX)})
+    # buffer full and the octet would have to be stored: the frame is discarded (every implementation of the step contract)
+    hy = [CT.rx_geometry(rx, RX), rx.types(), oct_(c), rx.has, rx.rdl - rx.rt == 0, CT.must_store(rx.st, c)]
+    rx1, dv = CT.rx_abs(rx, c, RX, "o")
+    ob("resync.overflow_resets_to_wait_start", hy, z3.And(dv["discard"], CT.sync_idle(rx1, RX), z3.Not(dv["flag"])), {"rx_size": z3.IntVal(RX)})
 
     # K: a well-formed frame of any length, receiver in sync at its start
     md, mt = z3.Int("m.d"), z3.Int("m.t")
     hy = [tx.idle, z3.Not(tx.esc), CT.sync_idle(rx, RX), mt - md >= 2]
     ch, tx1 = CT.pull_start(tx, O, md, mt)
-    ret, rx1, dv = CT.rx_abs(rx, ch, RX, "ks")
+    rx1, dv = CT.rx_abs(rx, ch, RX, "ks")
     for n_, g in enumerate(k_inv(tx1, rx1, RX)):
         ob("resync.any_frame.start.%d" % n_, hy, g)
     n = tx.n
     end = z3.And(z3.Not(tx.esc), tx.n >= tx.t)
     hy = k_inv(tx, rx, RX) + [z3.Not(end), oct_(z3.Select(tx.buf, n))]
     ch, tx1 = CT.pull_busy(tx)
-    ret, rx1, dv = CT.rx_abs(rx, ch, RX, "kp")
+    rx1, dv = CT.rx_abs(rx, ch, RX, "kp")
     inp = {"length": tx.t - tx.d - 2, "position": tx.n - tx.d, "rx_size": z3.IntVal(RX)}
     cover("resync.any_frame.preserved.reachable", hy)
     for n_, g in enumerate(k_inv(tx1, rx1, RX)):
@@ -261,21 +266,21 @@ def resync(run, mode, RX):
     ob("resync.any_frame.nothing_delivered_before_closing_flag", hy, z3.Not(dv["flag"]), inp)
     hy = k_inv(tx, rx, RX) + [end]
     ch, tx1 = CT.pull_busy(tx)
-    ret, rx1, dv = CT.rx_abs(rx, ch, RX, "ke")
+    rx1, dv = CT.rx_abs(rx, ch, RX, "ke")
     ob("resync.any_frame.exit_in_sync_or_one_flag_ahead", hy, z3.And(tx1.idle, z3.Not(tx1.esc), z3.Or(CT.sync_idle(rx1, RX), addr_empty(rx1, RX))), inp)
-    ob("resync.overlong_frame_never_delivered", hy + [tx.t - tx.d - 2 >= RX], z3.Not(dv["flag"]), inp)
+    ob("resync.overlong_frame_never_delivered", hy + [tx.t - tx.d - 2 > RX], z3.Not(dv["flag"]), inp)
 
     # J: the following frame, receiver one flag ahead
     qi = z3.Int("m.queue")
     hy = [tx.idle, z3.Not(tx.esc), addr_empty(rx, RX), CT.queue_entry(qi, O, md, mt), mt - md - 2 < RX]
     ch, tx1 = CT.pull_start(tx, O, md, mt)
-    ret, rx1, dv = CT.rx_abs(rx, ch, RX, "js")
+    rx1, dv = CT.rx_abs(rx, ch, RX, "js")
     inp = _inputs(tx1, O, RX)
     for n_, g in enumerate(j_inv(tx1, rx1, O, RX, [j])):
         ob("resync.following_frame.start.%d" % n_, hy, g, inp)
     hy = j_inv(tx, rx, O, RX, [j, n]) + [z3.Not(end), oct_(z3.Select(O, n)), oct_(z3.Select(tx.buf, n)), oct_(z3.Select(O, tx.d))]
     ch, tx1 = CT.pull_busy(tx)
-    ret, rx1, dv = CT.rx_abs(rx, ch, RX, "jp")
+    rx1, dv = CT.rx_abs(rx, ch, RX, "jp")
     inp = _inputs(tx, O, RX)
     cover("resync.following_frame.preserved.reachable", hy)
     goals = j_inv(tx1, rx1, O, RX, [j])
@@ -284,7 +289,7 @@ def resync(run, mode, RX):
     ob("resync.following_frame.preserved.not_lost_again", hy, goals[-1], inp)
     hy = j_inv(tx, rx, O, RX, [j, n]) + [end, oct_(z3.Select(O, tx.d))]
     ch, tx1 = CT.pull_busy(tx)
-    ret, rx1, dv = CT.rx_abs(rx, ch, RX, "je")
+    rx1, dv = CT.rx_abs(rx, ch, RX, "je")
     ob("resync.following_frame.exit_back_in_sync", hy, z3.And(tx1.idle, z3.Not(tx1.esc), CT.sync_idle(rx1, RX)), inp)
     run.trust("composition of the resync lemma: an over-long frame sent to a receiver in sync ends (K) in sync or one flag ahead; from one flag "
               "ahead the following frame ends (J) in sync; flag-free noise keeps either state (noise / WAIT_START clauses)")
@@ -410,6 +415,8 @@ def run_script(h, script):
             out["wire"].append([] if p[1] == "-" else list(bytes.fromhex(p[1])))
         elif p[0] == "overflow":
             out["overflows"] += 1
+        elif p[0] == "panic":
+            out["panic"] = True
         elif p[0] == "rx_size":
             out["rx_size"] = int(p[1])
         elif p[0] == "state":
@@ -449,6 +456,8 @@ def judge(exp_wire, exp_deliv, obs, only_probe=None):
         return None
     if obs.get("sanitizer"):
         bad.append("sanitizer: %s" % obs["sanitizer"])
+    if obs.get("panic"):
+        bad.append("osmo_panic() called (msgb abort: store beyond the receive buffer)")
     if not obs.get("completed"):
         bad.append("harness did not complete (rc %s)" % obs.get("rc"))
     if only_probe is not None:
@@ -478,7 +487,7 @@ def model_message(w, rx):
     return (dlci, payload) if valid_message(dlci, payload, rx) else None
 
 
-def scenarios(seed, rx, clause):
+def scenarios(seed, rx, clause, func=""):
     """seeded scenarios inside the statement's quantifier, ordered by the clause that failed"""
     import random
     rnd = random.Random(seed)
@@ -488,10 +497,19 @@ def scenarios(seed, rx, clause):
 
     def payload(n):
         return [rnd.choice(special) if rnd.random() < 0.5 else rnd.randrange(256) for _ in range(n)]
-    if "resync" in clause or "overflow" in clause or "fresh_buffer" in clause or "state" in clause:
-        for n_over in (rx, rx + 1, rx + 40, 3 * rx):
+    if not (func in ("sercomm_sendmsg", "sercomm_drv_pull", "sercomm_register_rx_cb") and "resync" not in clause):
+        # over-long frames whose first octets beyond the buffer are escaped / ordinary ones (the discard can be triggered at a store of
+        # either kind), then frames of all lengths around the boundary
+        for at in (rx, rx - 1, rx + 1):
+            for sp in (0x7E, 0x7D, 0x00):
+                p_ = [0x41 + (i % 7) for i in range(rx + 6)]
+                p_[at] = sp
+                yield ("overlong", [[(4, p_)], [(5, payload(9))], [(6, payload(5))], [(7, payload(3))]])
+        for n_over in (rx + 1, rx + 40, 3 * rx):
             for d in (rnd.choice(safe), 5, rnd.choice(esc_dlci)):
                 yield ("overlong", [[(4, payload(n_over))], [(d, payload(rnd.choice([0, 1, 7, rx - 2, rx - 1])))], [(6, payload(5))], [(7, payload(3))]])
+        # payload of exactly RX octets: delivered intact or discarded (the statement leaves the boundary open), never corrupted
+        yield ("boundary", [[(4, payload(rx))], [(5, payload(9))], [(6, payload(5))], [(7, payload(3))]])
     for k in range(12):
         lens = [rnd.choice([0, 1, 2, 3, 8, 31, rx - 1, rx - 2]) for _ in range(rnd.randrange(1, 6))]
         yield ("plain", [[(rnd.choice(esc_dlci) if rnd.random() < 0.3 else rnd.choice(safe), payload(n)) for n in lens] for _ in range(rnd.randrange(1, 3))])
@@ -530,18 +548,22 @@ def replay_c(payload):
                         "expected": "wire == hdlc_wire frames (lowest DLCI first), deliveries == the messages sent, no sanitizer report",
                         "message": {"dlci": msg[0], "payload_len": len(msg[1]), "payload_head": hexs(msg[1][:24])},
                         "deliveries_observed": [(d, hexs(p[:24])) for d, p in obs["deliveries"][:4]], "script_head": [s[:80] for s in script[:6]], "cmd": h.cmd}
-        for kind, batches in scenarios(int(os.environ.get("VERIF_SEED", "0") or 0), rx, clause):
-            if not all(valid_message(d, p, rx) or (kind == "overlong" and b is batches[0]) for b in batches for (d, p) in b):
+        for kind, batches in scenarios(int(os.environ.get("VERIF_SEED", "0") or 0), rx, clause, str(w.get("func") or "")):
+            if not all(valid_message(d, p, rx) or (kind in ("overlong", "boundary") and b is batches[0]) for b in batches for (d, p) in b):
                 continue
             script, ew, ed, obs = expect_and_observe(h, batches, rx)
             tried += 1
-            if kind == "overlong":
-                # the over-long frame itself and the one that follows may be lost; everything after must arrive, nothing may be corrupted
+            if kind in ("overlong", "boundary"):
+                # the over-long frame itself and the one that follows may be lost; everything after must arrive; no memory error, no panic
                 bad = judge(ew, ed, obs, only_probe=batches[2][0])
                 if bad is not None and batches[3][0] not in obs.get("deliveries", []):
                     bad.append("second frame after the over-long one not delivered either")
-                if bad is not None and batches[0][0] in [(d, p) for d, p in obs.get("deliveries", [])]:
+                if bad is not None and kind == "overlong" and batches[0][0] in obs.get("deliveries", []):
                     bad.append("over-long frame delivered")
+                if bad is not None and kind == "boundary":
+                    got = [x for x in obs.get("deliveries", []) if x[0] == batches[0][0][0]]
+                    if got and got != [batches[0][0]]:
+                        bad.append("frame with a payload of exactly the buffer size delivered corrupted")
             else:
                 bad = judge(ew, ed, obs)
             if bad:
@@ -613,6 +635,15 @@ def _pre_repair(fn):
             CT.PRE_REPAIR_TABLE = False
     return b
 
+
+# property-preserving refactorings that must stay green (applied with patch -p1 to a scratch copy; `selftest --mutants` runs them)
+HARMLESS = [
+    ("overflow guard moved from the top of sercomm_drv_rx_char() to the two store sites", "mutants/harmless/C06-guard-at-store-sites.diff"),
+]
+# seeded defects kept outside the repo that must stay red with a confirmed replay: (label, patch, obligation substring)
+SEEDED = [
+    ("ESCAPE store unguarded", "seeded/C06-c-escape-store-unguarded/patch.diff", "sercomm_drv_rx_char_"),
+]
 
 WRONG_POSTS = [
     ("coupling over the pre-repair receiver table", _pre_repair(lambda run, m, rx: coupling(run, m, rx)), "coupling.preserved.receiver_tracks_transmitter"),
